@@ -987,6 +987,10 @@ class State:
             return ('call', p, (recv,))
         if last in ('iter', 'iter_mut', 'into_iter', 'drain') and p.startswith('std::') and len(a) == 1:
             return a[0]
+        if p.startswith('rayon::iter::ParallelIterator::') and last in ('any', 'all', 'find_any', 'find_first', 'position_any') and len(a) == 2:
+            # the data-parallel spelling of a predicate over every item: same answer as the serial `any` / `all` (R-PAR decides
+            # that the two builds differ only at such sites); keep the predicate visible over the generic item
+            return self.iter_builtin({'find_any': 'find', 'find_first': 'find', 'position_any': 'position'}.get(last, last), p, a, node)
         if p.startswith('std::iter::Iterator::') or p.startswith('std::iter::DoubleEndedIterator::'):
             return self.iter_builtin(last, p, a, node)
         if p in ('std::f32::<impl f32>::from_bits', 'std::f64::<impl f64>::from_bits'):
